@@ -159,7 +159,7 @@ func wxJ5sText(root *wSch) (string, error) {
 		sb.WriteString("}\n\n")
 	}
 	if wxUsesEnum(root) {
-		sb.WriteString("enum Color {\n  option RED\n  option GREEN\n}\n")
+		sb.WriteString("enum Color {\n  option RED\n  option GREEN\n  option INFRARED\n}\n")
 	}
 	return sb.String(), nil
 }
@@ -333,6 +333,7 @@ func wxRawFile(root *wSch) (*descriptorpb.FileDescriptorProto, error) {
 				{Name: proto.String("COLOR_LEGACY"), Number: proto.Int32(5)},
 				{Name: proto.String("COLOR_RED"), Number: proto.Int32(1)},
 				{Name: proto.String("COLOR_GREEN"), Number: proto.Int32(2)},
+				{Name: proto.String("COLOR_INFRARED"), Number: proto.Int32(3)},
 			},
 		})
 	}
